@@ -1496,10 +1496,21 @@ fn gen_args(p: &mut Prng) -> Args {
     )
 }
 
+/// scripts above this size are regenerated: the inline emission of deeply
+/// nested types can expand to megabytes, which only measures compile time
+pub const MAX_SCRIPT: usize = 48 * 1024;
+
 pub fn gen_case(seed: u64, idx: u64) -> Case {
     let mut p = Prng::for_case(seed ^ 0xC02B, idx);
-    let pr = gen_program(&mut p);
-    let script = source(&pr);
+    let mut pr = gen_program(&mut p);
+    let mut script = source(&pr);
+    let mut attempt = 0u64;
+    while script.len() > MAX_SCRIPT && attempt < 8 {
+        attempt += 1;
+        p = Prng::for_case(seed ^ 0xC02B ^ (attempt << 40), idx);
+        pr = gen_program(&mut p);
+        script = source(&pr);
+    }
     // a list inside a constant is one shared storage for the life of the
     // package: pushes made during one call of `main` are seen by the next. The
     // spec evaluates one call from fresh constants, so such scripts run once.
@@ -1669,8 +1680,15 @@ fn parse_args(v: &Value) -> Vec<Args> {
 
 pub fn replay(v: &Value, rep: &mut Report) {
     // compile / run in a child so that a crash is reported, not suffered
-    let payload = v.to_string();
-    match rotov_harness::worker::run_worker(&["beh-one", "0", "0", "0", &payload], std::time::Duration::from_secs(120)) {
+    // handed over in a file: a script may exceed the argv limit
+    let dir = std::path::Path::new("evidence/replays");
+    let _ = std::fs::create_dir_all(dir);
+    let path = dir.join(format!(".c02-replay-{}.json", std::process::id()));
+    std::fs::write(&path, v.to_string()).expect("write replay payload");
+    let payload = format!("@{}", path.display());
+    let ended = rotov_harness::worker::run_worker(&["beh-one", "0", "0", "0", &payload], std::time::Duration::from_secs(120));
+    let _ = std::fs::remove_file(&path);
+    match ended {
         rotov_harness::worker::Ended::Exit(0, out) => {
             if let Some(j) = Report::parse_stdout(&out) {
                 rep.merge_json(&j);
@@ -1687,7 +1705,11 @@ pub fn replay(v: &Value, rep: &mut Report) {
 pub fn replay_in_worker(payload: &str) {
     install_panic_hook();
     crate::start_watchdog(30);
-    let v: Value = serde_json::from_str(payload).expect("json");
+    let text = match payload.strip_prefix('@') {
+        Some(path) => std::fs::read_to_string(path).expect("replay payload file"),
+        None => payload.to_string(),
+    };
+    let v: Value = serde_json::from_str(&text).expect("json");
     let rt = runtime();
     let mut drv = Driver::spawn().expect("driver");
     let mut rep = Report::default();
